@@ -5,7 +5,8 @@
  * alphabet: d<i> = zck_get_chunk_data(chunk i, buffer of its declared size), s<i> = zck_get_chunk_comp_data(chunk i,
  * buffer of its stored size).  With "extra 1" the alphabet also has history operations whose own results are reported but
  * not judged: r1 / r40 = zck_read of 1 / 40 bytes on the same context, V = zck_validate_checksums, F = zck_find_valid_chunks
- * (codes 2n .. 2n+3).  One case per sequence.
+ * (codes 2n .. 2n+3), p<i> = zck_get_chunk_data(chunk i) into a buffer of half the chunk's size (codes 2n+4 ..).  One case per
+ * sequence.
  * output: Q <idx> seq=<ops> res=<ret:hex;ret:hex;...>
  */
 #include "drv.h"
@@ -18,7 +19,8 @@ static void do_seq(qctx *c, const int *ops, int n, int idx, FILE *out) {
     fprintf(out, "Q %d seq=", idx);
     static const char *xname[] = {"r1", "r40", "V", "F"};
     for(int i = 0; i < n; i++) {
-        if(ops[i] >= 2 * c->nchunks) fprintf(out, "%s%s", i ? "," : "", xname[ops[i] - 2 * c->nchunks]);
+        if(ops[i] >= 2 * c->nchunks + 4) fprintf(out, "%sp%d", i ? "," : "", ops[i] - 2 * c->nchunks - 4);
+        else if(ops[i] >= 2 * c->nchunks) fprintf(out, "%s%s", i ? "," : "", xname[ops[i] - 2 * c->nchunks]);
         else fprintf(out, "%s%c%d", i ? "," : "", ops[i] % 2 ? 's' : 'd', ops[i] / 2);
     }
     if(!n) fputc('-', out);
@@ -30,6 +32,14 @@ static void do_seq(qctx *c, const int *ops, int n, int idx, FILE *out) {
     }
     fprintf(out, " res=");
     for(int i = 0; i < n; i++) {
+        if(ops[i] >= 2 * c->nchunks + 4) {
+            zckChunk *ch = zck_get_chunk(zck, ops[i] - 2 * c->nchunks - 4);
+            char tmp[4096];
+            ssize_t sz = ch ? zck_get_chunk_size(ch) : 0;
+            long r = ch ? (long)zck_get_chunk_data(ch, tmp, sz / 2 > 0 ? (size_t)sz / 2 : 1) : -9;
+            fprintf(out, "%sx%lde%d", i ? ";" : "", r, zck_is_error(zck));
+            continue;
+        }
         if(ops[i] >= 2 * c->nchunks) {
             int x = ops[i] - 2 * c->nchunks;
             char tmp[64];
@@ -62,6 +72,7 @@ static void run_one(int idx, FILE *out, void *vctx) {
             else if(!strcmp(t, "r40")) ops[n++] = 2 * c->nchunks + 1;
             else if(!strcmp(t, "V")) ops[n++] = 2 * c->nchunks + 2;
             else if(!strcmp(t, "F")) ops[n++] = 2 * c->nchunks + 3;
+            else if(t[0] == 'p') ops[n++] = 2 * c->nchunks + 4 + atoi(t + 1);
             else ops[n++] = atoi(t + 1) * 2 + (t[0] == 's');
         }
         free(s);
@@ -95,7 +106,7 @@ int cmd_chunkreq(FILE *job, FILE *out) {
         free(t);
         free(line);
     }
-    c.alpha = c.nchunks * 2 + (c.extra ? 4 : 0);
+    c.alpha = c.nchunks * 2 + (c.extra ? 4 + c.nchunks : 0);
     long total = 0, block = c.alpha;
     for(int l = 1; l <= c.depth; l++) { total += block; block *= c.alpha; }
     run_opts o = {.chunk = 128, .timeout_ms = 10000};
